@@ -633,10 +633,10 @@ def _join_of_vals(facts, t, vf, body=None):
     return False
 
 
-@rule('MV-READ', {
+@rule('MV-READ', floor=2, **read_attribution({
     'C06': 'read returns every stored value, and its context is the join of all value clocks (so a write replaces all of them)',
     'C07': 'add and remove context of a register read are both that join',
-}, floor=2)
+}, module='mvreg'))
 def mv_read(ctx):
     """MVReg::read / read_ctx: val = every stored value; add_clock = rm_clock = join of all value clocks."""
     facts = ctx.facts
